@@ -11,8 +11,27 @@
  * wrap) and that the caller's buffer can hold n octets.
  *
  * The data size N is a compile-time parameter of the instance (enumerated by
- * the spec); placement, checksum kind, initial value, order of the
- * configuration calls and the auxiliary-buffer size are symbolic.
+ * the spec); placement, initial value, order of the configuration calls and
+ * the auxiliary-buffer size are symbolic. The checksum kind is symbolic within
+ * the instance's set KINDS (bit mask) or fixed by -DKIND=k.
+ *
+ * Checksum kinds
+ *   0  the library's built-in default ("trivial sum", 16 bit)
+ *   1  CRC-16/ARC: the real ufw_crc16_arc behind the callback signature
+ *   2  a 32-bit sum (harness)
+ *   3  ANY chunk-compositional 16-bit algorithm   (abstract, see below)
+ *   4  ANY chunk-compositional 32-bit algorithm   (abstract)
+ *
+ * Abstract algorithm: a chunk-compositional checksum is a fold
+ *     state_0 = init, state_k = step(state_{k-1}, octet_k), result = state_N.
+ * For the data image the harness declares "current", the states state_1..N
+ * are unconstrained inputs of the instance (that over-approximates every
+ * step function). The callback follows the library through the image: called
+ * with the running value state_p and the next n octets of the image it
+ * returns state_{p+n}; a calculation may (re)start from state_0 at any time.
+ * Any other call returns an unconstrained value. "The algorithm applied to
+ * the data image" is state_N. The three concrete kinds make the same check
+ * with real arithmetic at a higher solver cost.
  */
 #ifndef C10_COMMON_H
 #define C10_COMMON_H
@@ -40,8 +59,7 @@
 struct c10_cfg {
     uint32_t base;  /* placement of the instance on the medium */
     uint32_t init;  /* initial value of the checksum algorithm (kinds 1, 2) */
-    uint8_t kind;   /* 0 built-in trivial sum (16 bit), 1 CRC-16/ARC (16 bit),
-                     * 2 a 32-bit sum */
+    uint8_t kind;   /* 0..4, see above */
     uint8_t order;  /* 0 place after choosing the checksum, 1 place before,
                      * 2 no persistent_place() call at all (base must be 0) */
     uint8_t aux;    /* 0 no auxiliary buffer; 1..N+1 buffer of that size */
@@ -49,9 +67,21 @@ struct c10_cfg {
 
 #ifdef KIND
 #define C10_KIND(c) ((uint8_t)(KIND))
+#define KINDS (1u << (KIND))
 #else
 #define C10_KIND(c) ((c)->kind)
+#ifndef KINDS
+#define KINDS 0x18u
 #endif
+#endif
+#define C10_WIDE(k) ((k) == 2 || (k) == 4)
+#define C10_ABSTRACT(k) ((k) >= 3)
+
+/* states of the abstract algorithm for one data image (part of the input) */
+struct c10_states {
+    uint32_t st[N]; /* st[k-1]: state after k octets of the image */
+    uint32_t junk;  /* value of the algorithm on anything that is not this image */
+};
 
 /* ---- medium ------------------------------------------------------------ */
 static uint8_t M[MSIZE];
@@ -153,10 +183,53 @@ static uint32_t cb_sum32(const unsigned char *d, size_t n, uint32_t s)
     return s;
 }
 
+/* abstract algorithm (kinds 3 and 4) */
+static const uint8_t *a_img; /* current data image, N octets */
+static uint32_t a_st[N + 1]; /* a_st[k]: state after k octets; a_st[0] = init */
+static size_t a_pos;         /* octets of the image consumed by the running calculation */
+static uint32_t a_junk;      /* value of the algorithm on anything else */
+static bool a_lost;          /* the library fed something that is not the image in order */
+
+static bool a_match(const unsigned char *d, size_t from, size_t n)
+{
+    if (n > N - from)
+        return false;
+    bool same = true;
+    for (size_t i = 0; i < N; ++i)
+        if (i < n && d[i] != a_img[from + i])
+            same = false;
+    return same;
+}
+
+static uint32_t a_step(const unsigned char *d, size_t n, uint32_t s)
+{
+    if (s == a_st[a_pos] && a_match(d, a_pos, n)) {
+        a_pos += n;
+        return a_st[a_pos];
+    }
+    if (s == a_st[0] && a_match(d, 0, n)) {
+        a_pos = n;
+        return a_st[a_pos];
+    }
+    a_lost = true;
+    return a_junk;
+}
+
+static uint16_t cb_abs16(const unsigned char *d, size_t n, uint16_t s)
+{
+    return (uint16_t)a_step(d, n, s);
+}
+
+static uint32_t cb_abs32(const unsigned char *d, size_t n, uint32_t s)
+{
+    return a_step(d, n, s);
+}
+
 /* The configured algorithm applied in ONE piece to a data image of N octets.
  * Kind 0 is written from the header documentation of the default ("sums up
  * all bytes into a uint16_t", initial value 0); kinds 1 and 2 are the
- * configured callbacks themselves. */
+ * configured callbacks themselves; kinds 3 and 4: state_N of the current
+ * image (img must be the image declared by c10_current). */
 static uint32_t c10_ref(const struct c10_cfg *c, const uint8_t *img)
 {
     switch (C10_KIND(c)) {
@@ -168,9 +241,24 @@ static uint32_t c10_ref(const struct c10_cfg *c, const uint8_t *img)
     }
     case 1:
         return cb_crc16(img, N, (uint16_t)c->init);
-    default:
+    case 2:
         return cb_sum32(img, N, c->init);
+    default:
+        return a_st[N];
     }
+}
+
+/* declare img (N octets, must stay alive and unchanged) the current data image
+ * with the abstract states st; harmless for the concrete kinds */
+static void c10_current(const struct c10_cfg *c, const uint8_t *img, const struct c10_states *st)
+{
+    const bool wide = C10_WIDE(C10_KIND(c));
+    a_img = img;
+    a_st[0] = wide ? c->init : (uint16_t)c->init;
+    for (size_t k = 0; k < N; ++k)
+        a_st[k + 1] = wide ? st->st[k] : (uint16_t)st->st[k];
+    a_junk = st->junk;
+    a_pos = 0;
 }
 
 /* checksum octets on the medium, read as an integer object of the checksum's
@@ -255,11 +343,11 @@ static unsigned char *c10_aux;
 
 static void c10_assume_cfg(const struct c10_cfg *c)
 {
-    VP_ASSUME(C10_KIND(c) <= 2);
+    VP_ASSUME(C10_KIND(c) <= 4 && ((KINDS >> C10_KIND(c)) & 1u));
     VP_ASSUME(c->order <= 2);
     VP_ASSUME(c->order != 2 || c->base == 0);
     VP_ASSUME(c->aux <= AUXMAX);
-    m_cs = (C10_KIND(c) == 2) ? 4 : 2;
+    m_cs = C10_WIDE(C10_KIND(c)) ? 4 : 2;
     /* the region does not wrap the medium's 32-bit address space */
     VP_ASSUME((uint64_t)c->base + m_cs + N <= 0x100000000ull);
     m_base = c->base;
@@ -283,6 +371,10 @@ static void c10_instance(PersistentStorage *s, const struct c10_cfg *c)
         persistent_sum16(s, cb_crc16, (uint16_t)c->init);
     else if (C10_KIND(c) == 2)
         persistent_sum32(s, cb_sum32, c->init);
+    else if (C10_KIND(c) == 3)
+        persistent_sum16(s, cb_abs16, (uint16_t)c->init);
+    else if (C10_KIND(c) == 4)
+        persistent_sum32(s, cb_abs32, c->init);
     if (c->order == 0)
         persistent_place(s, c->base);
     if (c->aux != 0)
